@@ -157,6 +157,8 @@ NESTED_OPS = {
     "n2": [
         ("lend-row", ["bump2(xss[i])"]),
         ("lend-row-impure-index", ["bump2(xss[take(cur)])"]),
+        ("write-row", ["xss[i] = array(90, 91)"]),
+        ("write-row-from-variable", ["nr = array(92, 93)", "xss[j] = nr"]),
         ("write-elem", ["xss[i][j] = 90"]),
         ("write-elem-impure-index", ["xss[take(cur)][j] = 90"]),
         ("augassign-elem", ["xss[i][j] += 7"]),
